@@ -41,8 +41,8 @@ class GenL:
         keys = set()
         while len(keys) < n:
             if self.numeric_keys and r.random() < 0.5: keys.add(str(r.choice([1, 2, 3, 10, 7])).encode())
-            else: keys.add(r.choice([b"a", b"b", b"key", b"k1", b"x y", b"-5", b"0", b"1a", b"Z", b"_u"]) if r.random() < 0.7 else (self.g.bytestr(4) or b"e"))
-        keys = [k for k in keys if k and not (all(c in b'-0123456789' for c in k) and int((k.split(b'-')[0] or b'0')) > 0) or self.numeric_keys]
+            else: keys.add(r.choice([b"a", b"b", b"key", b"k1", b"x y", b"-5", b"0", b"1a", b"Z", b"_u", b"", b"-", b"--", b"0-1"]) if r.random() < 0.7 else (self.g.bytestr(4) or b"e"))
+        keys = [k for k in keys if not (all(c in b'-0123456789' for c in k) and int((k.split(b'-')[0] or b'0')) > 0) or self.numeric_keys]
         if not keys: keys = [b"k"]
         out = ["O%d" % len(keys)]
         for k in sorted(keys):
@@ -79,7 +79,7 @@ def expected_dump(tokens):
             return "(- i [%s] {})" % " ".join(items), i
         kv = []; i += 1
         for _ in range(n):
-            k = tokens[i]; s, i = go(i + 1); kv.append("%s %s" % (k, s))
+            k = tokens[i] or "-"; s, i = go(i + 1); kv.append("%s %s" % (k, s))
         return "(- i [] {%s})" % " ".join(kv), i
     return go(0)[0]
 
@@ -93,7 +93,7 @@ def run(ctx):
     vals = [g.value(top=(ctx.rng.random() < 0.6)) for _ in range(n)]
     lines = []
     for v in vals:
-        for way in ("data", "event", "param"):
+        for way in ("data", "event", "param", "namelist", "content", "donedata", "donecontent"):
             if way == "event" and v[0][0] in "VI": continue      # event payload atoms take a different path (content)
             lines.append(way + "|" + " ".join(v))
     h, d = run_pair(ctx, lines)
